@@ -25,6 +25,7 @@ a duplicate alias is a Fatal in every order; `C07_aliasDup_fixed`), F_msgOrder (
 `C07_msgOrder_fixed`).  Both are now part of `C07_order_indep`, which needs no condition on the alias map any more.
 Findings (the unchanged code violates the property; witness theorems below):
   F_structTwice    – rest: a parameter struct declared in two files of the directory (build tags, external test package)
+  F_pkgDirCwd      – rest: the package of a parameter struct is resolved from the WORKING DIRECTORY, not from the package directory
   F_embedderFirst  – `-getset`: a type processed before the shoot type it embeds: the second run differs from the first
   F_staleAllInOne  – `-file=` / `-type=*` with stale output: the stale all-in-one file is not shadowed by the overlay
 -/
@@ -211,6 +212,25 @@ theorem C07_msgOrder_fixed :
 theorem C07_F_structTwice_witness :
     gather [("alt.go", ["Other"]), ("t.go", ["Name", "Size"])] = ["Other", "Name", "Size"] ∧
     gather [("t.go", ["Name", "Size"]), ("alt.go", ["Other"])] = ["Name", "Size", "Other"] := by decide
+
+/-! the working directory -/
+
+/-- `shoot rest`, struct parameter from another package: started anywhere inside the module of the package that is being generated
+    (the package directory, the module root, a sibling package: the same module context) the struct's package directory is the
+    one the type checker used - the region in which the working-directory legs of the correspondence assert equal bytes -/
+theorem C07_pkgDir_same_context (ctx : ModCtx) (importPath : String) :
+    getPkgDir ctx importPath = pkgDirSpec ctx importPath ∧ F_pkgDirCwd ctx ctx importPath = false := by
+  simp [getPkgDir, pkgDirSpec, F_pkgDirCwd]
+
+/-- F_pkgDirCwd: `shoot rest -type=C <dir>` started in a directory of ANOTHER module that also provides the import path of the
+    parameter struct's package (a second checkout, a fork, a vendored copy) reads THAT module's struct: the query parameters of
+    the generated client come from a struct the package being generated never sees; started outside any module the run fails -/
+theorem C07_F_pkgDirCwd_witness :
+    let pkgCtx : ModCtx := [("verifcases/c/dest", "/work/mod/c/dest")]
+    let otherCtx : ModCtx := [("verifcases/c/dest", "/work/mod/c/zz_other/c/dest")]
+    F_pkgDirCwd otherCtx pkgCtx "verifcases/c/dest" = true ∧ F_pkgDirCwd [] pkgCtx "verifcases/c/dest" = true ∧
+    getPkgDir otherCtx "verifcases/c/dest" ≠ pkgDirSpec pkgCtx "verifcases/c/dest" ∧
+    getPkgDir [] "verifcases/c/dest" = none := by decide
 
 /-! ## generated files are not input -/
 
